@@ -1,5 +1,5 @@
 import PsV.Model.Fits
-import PsV.Model.FitsBytes
+import PsV.Model.FitsCodec
 import PsV.Model.FitsRead
 import PsV.Driver.Common
 /-!
